@@ -74,8 +74,9 @@ type Task struct {
 	Ctx    context.Context
 	Cancel context.CancelFunc
 
-	aborted bool
-	Panic   any
+	aborted  bool
+	sleeping int32 // inside a harness-level sleep (virtual time)
+	Panic    any
 }
 
 // Sched is the deterministic scheduler of one simulated run.
@@ -119,6 +120,14 @@ type Sched struct {
 	AfterDrain func()
 	// OnCall is called by the scheduler when it releases a task into an operation.
 	OnCall func(t *Task, op *OpRec)
+
+	// LagPct > 0 enables fault F-lag: with this probability per decision the
+	// scheduler lets virtual time advance to the next harness-level wake-up
+	// although tasks are runnable (a slow thread parked in the middle of an
+	// operation). Only for stacks without select-based blocking (no timer can
+	// become ready together with another case).
+	LagPct int
+	Lags   int
 
 	Switches    int
 	LockWaits   int
@@ -385,7 +394,9 @@ func (t *Task) WaitFor(name string, cond func() bool) bool {
 func (t *Task) Sleep(d time.Duration) {
 	raceOff()
 	if d > 0 {
+		atomic.StoreInt32(&t.sleeping, 1)
 		time.Sleep(d)
+		atomic.StoreInt32(&t.sleeping, 0)
 	}
 	t.park(kWoke, "woke", nil)
 	raceOn()
@@ -490,6 +501,16 @@ func firstLine(s string) string {
 		}
 	}
 	return s
+}
+
+//go:norace
+func (s *Sched) anySleeping() bool {
+	for _, t := range s.tasks {
+		if atomic.LoadInt32(&t.sleeping) == 1 {
+			return true
+		}
+	}
+	return false
 }
 
 //go:norace
@@ -688,6 +709,12 @@ func (s *Sched) loop() {
 				return
 			}
 			continue
+		}
+		if s.LagPct > 0 && s.anySleeping() && s.T.Intn(100, "lag?") >= 100-s.LagPct {
+			s.Lags++
+			if s.idle() {
+				continue
+			}
 		}
 		// new tasks created mid-run under PCT need a priority
 		if s.strategy == 2 {
